@@ -3,7 +3,7 @@ package util
 //verif:dir internal/util
 //verif:stub os.Lstat = c26Lstat
 //verif:stub path/filepath.EvalSymlinks = c26EvalSymlinks
-//verif:bound program-supplied path: arbitrary bytes over {/ . a b}, len<=6 (quick) / <=7 (thorough); sandbox root /a (so that absolute spellings inside the root are within the alphabet); model file system with directories / /a /a/a /b /b/a and one symbolic link /a/b whose target is chosen among {absent, /a/a, /b, .., ../b, a}
+//verif:bound program-supplied path: arbitrary bytes over {/ . a b}, len<=6 (quick) / <=7 (thorough); sandbox root /a (so that absolute spellings inside the root are within the alphabet); a symbolic link /a/b whose target is one of 9 (inside, outside, a sibling whose name extends the root's, relative, dangling); model file system with directories / /a /a/a /b /b/a and one symbolic link /a/b whose target is chosen among {absent, /a/a, /b, .., ../b, a}
 //verif:assume path/filepath Clean/Join/Rel/Dir run from source; symbolic-link resolution follows the model's resolver (component-wise, absolute and relative targets)
 //verif:outside that every runtime file function routes its path through SandboxJoin (a call-site census); races between the check and the later use of the path; deeper link chains
 
@@ -19,7 +19,7 @@ import (
 const c26Root = "/a"
 
 var (
-	c26Dirs  = map[string]bool{"/": true, "/a": true, "/a/a": true, "/b": true, "/b/a": true}
+	c26Dirs  = map[string]bool{"/": true, "/a": true, "/a/a": true, "/b": true, "/b/a": true, "/aa": true, "/aa/a": true} // /aa: a sibling whose name extends the root's
 	c26Link  string // target of the symbolic link /a/b ("" = /a/b does not exist)
 	errC26NE = errors.New("no such file or directory")
 )
@@ -94,7 +94,17 @@ func c26Real(p string) string {
 	}
 	r, err := c26Resolve(existing, 0)
 	if err != nil {
-		return p
+		// a dangling link: the operating system creates the file where the
+		// link points (its directory part resolved), not where the link is
+		if existing == "/a/b" && c26Link != "" {
+			t := c26Link
+			if !strings.HasPrefix(t, "/") {
+				t = filepath.Join("/a", t)
+			}
+			r = filepath.Clean(t)
+		} else {
+			return p
+		}
 	}
 	if rel, err := filepath.Rel(existing, p); err == nil && rel != "." {
 		return filepath.Join(r, rel)
@@ -112,7 +122,7 @@ func VerifC26_pathsStayInsideTheSandbox() {
 		c26Native(n)
 		return
 	}
-	c26Link = []string{"", "/a/a", "/b", "..", "../b", "a"}[sym.Choice("link", 6)]
+	c26Link = []string{"", "/a/a", "/b", "..", "../b", "a", "/aa", "../aa", "/c", "../c"}[sym.Choice("link", 10)]
 	p := sym.String("path", n)
 	for i := 0; i < len(p); i++ {
 		sym.Assume(p[i] == '/' || p[i] == '.' || p[i] == 'a' || p[i] == 'b')
@@ -126,7 +136,7 @@ func VerifC26_pathsStayInsideTheSandbox() {
 
 // c26Native replays against a real directory tree with a real symbolic link.
 func c26Native(n int) {
-	link := []string{"", "/a/a", "/b", "..", "../b", "a"}[sym.Choice("link", 6)]
+	link := []string{"", "/a/a", "/b", "..", "../b", "a", "/aa", "../aa", "/c", "../c"}[sym.Choice("link", 10)]
 	p := sym.String("path", n)
 	base, err := os.MkdirTemp("", "c26-")
 	if err != nil {
@@ -137,6 +147,7 @@ func c26Native(n int) {
 	root := filepath.Join(base, "a")
 	os.MkdirAll(filepath.Join(root, "a"), 0o755)
 	os.MkdirAll(filepath.Join(base, "b", "a"), 0o755)
+	os.MkdirAll(filepath.Join(base, "aa", "a"), 0o755)
 	if link != "" {
 		t := link
 		if strings.HasPrefix(t, "/") {
@@ -164,6 +175,13 @@ func c26Native(n int) {
 	real, err := filepath.EvalSymlinks(existing)
 	if err != nil {
 		real = existing
+		// a dangling link: a file created through it appears at its target
+		if t, lerr := os.Readlink(existing); lerr == nil {
+			if !strings.HasPrefix(t, "/") {
+				t = filepath.Join(filepath.Dir(existing), t)
+			}
+			real = filepath.Clean(t)
+		}
 	}
 	sym.Assert(real == root || strings.HasPrefix(real, root+"/"), "SandboxJoin returned a path that resolves outside the sandbox root")
 }
